@@ -107,7 +107,8 @@ def run(ctx, res):
     _c30.fresh_id(P, res, rule="FRESH-ID")
     # ---- RESET-ON-DEQUEUE ----------------------------------------------------------
     w = P.require_fn("nrepl::session_worker")
-    recvs = [bi for bi, t in w.calls() if (M.callee_name(t) or "").endswith("Receiver::<T>::recv")]
+    recvs = [bi for bi, t in w.calls() if (M.callee_name(t) or "").endswith("Receiver::<T>::recv")
+             or ("mpsc::Iter<" in (M.callee_name(t) or "") and (M.callee_name(t) or "").endswith("Iterator>::next"))]      # `for req in rx.iter()` dequeues with Iter::next
     handlers = [(bi, M.callee_name(t)) for bi, t in w.calls() if (M.callee_name(t) or "").startswith("nrepl::handle_")]
     res.floor("RESET-ON-DEQUEUE", "handler calls in session_worker", len(handlers), 4)
     falses = [(bi, t) for (bi, t, v, n) in stores(w) if v is False]
